@@ -79,7 +79,7 @@ def node_for(case, mask, fname, vs, subsel, is_item, forced_gate=None):
         if not is_list or is_item:
             raise UnsupportedShape("list at non-list position")
         aiter = vs.get("aiter") is not None and vs["aiter"] in mask
-        node["res"] = ("C", 1)
+        node["res"] = ("C", 2 if aiter else 1)
         for n, it in enumerate(vs["items"]):
             node["kids"].append(node_for(case, mask, fname, it, subsel, True, 1 if aiter else None))
             node["keys"].append(n)
@@ -191,7 +191,7 @@ def rebuild(node, val):
     """model value + tree -> JSON data of the response"""
     if val is None or isinstance(val, str):
         return val
-    if node["res"] == ("C", 1):
+    if node["res"] in (("C", 1), ("C", 2)):
         return [rebuild(k, v) for k, v in zip(node["kids"], val)]
     return {key: rebuild(k, v) for key, k, v in zip(node["keys"], node["kids"], val)}
 
